@@ -189,11 +189,21 @@ def _gen_class(cfg):
                                    ("x", "z"), (" ", "/"), ("!", "~"), ("a", "a"), ("Z", "a"),
                                    (" ", "~"), ("5", "A"), ("\x00", "\x7f") if r.random() < 0.2 else ("b", "y"),
                                    ("\u0100", "\uffff") if r.random() < 0.15 else ("0", "1"),
-                                   ("\ud7ff", "\ue000") if r.random() < 0.1 else ("m", "n")))
+                                   ("\ud7ff", "\ue000") if r.random() < 0.1 else ("m", "n"),
+                                   # ranges that start, end or lie inside the surrogate block
+                                   r.choice((("\ud800", "\udfff"), ("\ud000", "\udcff"), ("\uda00", "\uffff"), ("\udc00", "\udc03")))
+                                   if r.random() < 0.1 else ("c", "e")))
                 items.append({"k": "range", "a": lo, "b": hi})
             else:
                 items.append({"k": "cat", "c": r.choice("dw")})
         neg = r.random() < cfg.p_neg
+        if neg:
+            # d42 enumerates every member of every range of a negated class for each character it draws
+            # (30 ms per draw for \u0100-\uffff): speed is not what C09 is about, so negated classes keep
+            # their ranges below 4096 members and one run cannot spend minutes in a single pattern
+            for it in items:
+                if it["k"] == "range" and ord(it["b"]) - ord(it["a"]) > 0xfff:
+                    it["b"] = chr(ord(it["a"]) + 0xfff)
         node = {"k": "class", "neg": neg, "items": items}
         if neg and not (set(cfg.letters) - class_members(node)) and r.random() >= cfg.p_exhaust:
             continue   # complement normally meets the run's alphabet (else nothing ASCII *can* be generated)
